@@ -712,6 +712,27 @@ def gen_starred(tier, rnd, det):
     return out
 
 
+# witnesses of the repaired defects (`fixed:` lines F02x-5..17): part of the deterministic families for ever
+CORPUS = {
+    "RSingleton": ["v1 == True", "v1 != False", "v1 == None"],
+    "RDupDict": ["{1: 'a', True: 'aa', 'a': 2}", "{1: f0(1), 1: f0(3)}", "{1: 'a', 2: 'aa', 1: ''}", "{1: 'a', v1: 'aa', 1: ''}",
+                 "{1: 'a', **v3, 1: ''}"],
+    "REnumerate": ["[(_, v2) for _, v2 in enumerate(v3)]"],
+    "RZip": ["[_ for _, v2 in zip(v3, v4)]", "[v2 for _, v2 in zip(v3, v4)]"],
+    "RChained": ["sorted(list(set(list(v1))))", "list(tuple(set(sorted(v1))))", "sorted(list(v1), reverse=True)",
+                 "sorted(sorted(v1, key=v2))", "set(sorted(v1, key=v2))", "reversed(list(v1))", "reversed(tuple(v1))",
+                 "list(iter(reversed(sorted(v1))))", "sorted(sorted(v1, reverse=True))"],
+    "RChainCasts": ["iter(itertools.chain())", "set(itertools.chain(*v1))", "list(itertools.chain(v2, *v1))"],
+    "RCompCasts": ["iter([f2(v2) for v2 in v3])", "list({v2: f2(v2) for v2 in v3})", "set({v2: f2(v2) for v2 in v3})",
+                   "iter({v2: 0 for v2 in v3})"],
+    "RUnpacks": ["[*{1: f0()}]", "[*{**v1}]", "[*{*v1}]", "(*{*v1}, 1)", "{*{f0(): f0()}}"],
+}
+
+
+def corpus_terms(rid):
+    return [norm_term(t_of_ast(ast.parse(src, mode="eval").body)) for src in CORPUS.get(rid, [])]
+
+
 GENERATORS = {
     "RSingleton": gen_singleton, "RDupSet": gen_dup_set, "RDupDict": gen_dup_dict, "REnumerate": gen_enumerate,
     "RZip": gen_zip, "RChained": gen_chained, "RChainCasts": gen_chain_casts, "RCompCasts": gen_comp_casts,
@@ -885,7 +906,7 @@ def check(run, mods, wd, rnd) -> dict:
     det = _random.Random(20260928)       # sampling inside the deterministic families does not depend on VERIF_SEED
     random_sources = set()
     for rid, gen in GENERATORS.items():
-        cases = gen(tier, rnd, det)
+        cases = corpus_terms(rid) + gen(tier, rnd, det)
         for term in cases:
             seeded = term[0] == "rnd"
             if seeded:
